@@ -185,10 +185,35 @@ def r03_2_3(rep: Report) -> None:
                         break
         return out
 
+    def absent_atoms(atoms: set[str], fn: ast.FunctionDef, fourcc: str) -> list[str]:
+        """`X is None` atoms where X is a box lookup (`find_atom / find_peer / find_child('<fourcc>')`)
+        or a local whose every definition in `fn` is such a lookup"""
+        def lookup(e) -> bool:
+            return isinstance(e, ast.Call) and (call_name(e) or '').rsplit('.', 1)[-1].startswith('find_') \
+                and any(isinstance(a, ast.Constant) and a.value == fourcc for a in e.args)
+        out = []
+        for t in atoms:
+            if not t.endswith(' is None'):
+                continue
+            try:
+                e = ast.parse(t[:-len(' is None')], mode='eval').body
+            except SyntaxError:
+                continue
+            if lookup(e):
+                out.append(t)
+            elif isinstance(e, ast.Name):
+                defs = [n.value for n in ast.walk(fn) if isinstance(n, ast.Assign)
+                        and any(isinstance(x, ast.Name) and x.id == e.id for tg in n.targets for x in ast.walk(tg))]
+                if defs and all(lookup(d) for d in defs):
+                    out.append(t)
+        return out
+
     def trun_ok(atoms: set[str]):
-        parts = [('atom', t) for t in atoms if t in ('moof is None', 'mdat is None')]
-        parts += [('atom', t) for t in eq_atoms(atoms, pe, {'moof.position', 'moof.size', 'mdat.header_size'})]
-        if not any(p[1] not in ('moof is None', 'mdat is None') for p in parts):
+        absent = absent_atoms(atoms, pe, 'moof') + absent_atoms(atoms, pe, 'mdat')
+        parts = [('atom', t) for t in absent]
+        eqs = eq_atoms(atoms, pe, {'moof.position', 'moof.size', 'mdat.header_size'})
+        parts += [('atom', t) for t in eqs]
+        if not eqs:
             return None
         return f_or(*parts)
     _fixup_discipline(rep, c, pe, 'self.data_offset', ('self.output_box_fields', 'self.encode_fields'),
@@ -227,9 +252,7 @@ def r03_2_3(rep: Report) -> None:
                  'post_encode does not set offsets = [position of the first senc sample entry]', pe2)
 
     def saio_ok(atoms: set[str]):
-        parts = []
-        if 'senc is None' in atoms:
-            parts.append(('atom', 'senc is None'))
+        parts = [('atom', t) for t in absent_atoms(atoms, pe2, 'senc')]
         bug = [t for t in atoms if "has_bug('saio')" in t]
         parts += [('atom', t) for t in bug]
         not_none = f_not(('atom', 'self.offsets is None'))
@@ -441,7 +464,25 @@ def r03_4_5(rep: Report) -> None:
     for call in ins:
         idx_e = subst_locals(fn, call.args[0], allow_calls=True)
         l = lin(call.args[0])
-        base_names = [k for k in (l or {}) if k and ('moof' in k)]
+        # for idx, box in enumerate(boxes, start=S): idx is S + (a counter of the boxes so far)
+        enum_counters: set[str] = set()
+        for f_ in ast.walk(fn):
+            if l is not None and isinstance(f_, ast.For) and isinstance(f_.iter, ast.Call) \
+                    and norm(f_.iter.func) == 'enumerate' and isinstance(f_.target, ast.Tuple) \
+                    and any(x is call for x in ast.walk(f_)):
+                k = norm(f_.target.elts[0])
+                start = f_.iter.args[1] if len(f_.iter.args) == 2 else next(
+                    (kw.value for kw in f_.iter.keywords if kw.arg == 'start'), None)
+                if start is not None and k in l:
+                    ls = lin(start)
+                    if ls is None:
+                        l = None
+                        break
+                    coef = l.pop(k)
+                    for kk, vv in ls.items():
+                        l[kk] = l.get(kk, 0) + coef * vv
+                    l[f'{k} (counted from {norm(start)})'] = coef
+                    enum_counters.add(f'{k} (counted from {norm(start)})')
         moof_defs = {norm(a_.targets[0]): norm(a_.value) for a_ in ast.walk(fn)
                      if isinstance(a_, ast.Assign) and len(a_.targets) == 1 and isinstance(a_.targets[0], ast.Name)
                      and "index('moof')" in norm(a_.value)}
@@ -460,7 +501,7 @@ def r03_4_5(rep: Report) -> None:
                           and any(x is call for x in ast.walk(f_)) for f_ in ast.walk(fn))
             is_count = any(isinstance(a_, ast.AugAssign) and norm(a_.target) == k and isinstance(a_.op, ast.Add)
                            and norm(a_.value) == '1' for a_ in ast.walk(fn))
-            counters.append((k, is_enum or is_count))
+            counters.append((k, is_enum or is_count or k in enum_counters))
         ok_form = const == 0 and all(v == 1 for v in rest.values()) and len(rest) <= 1 \
             and all(okc for _k, okc in counters)
         if ok_form:
